@@ -398,6 +398,8 @@ void MDSDRV_Data::add_pitch_envelope(uint16_t id, const Tag& tag)
 	// end command
 	if(loop_pos == -1)
 	{
+		if(env_data.empty())
+			throw InputError(nullptr, stringf("error: pitch envelope @M%d has no nodes", id).c_str());
 		env_data.back() = 0xff;
 	}
 	else
